@@ -31,9 +31,11 @@ type Prog struct {
 	Whole   bool // whole-program SSA (thorough tier)
 	// Overlay is set on a program produced by NormaliseNewFunctions: file name -> content that
 	// replaces the file on disk (an equivalent rewriting of the current source).
-	Overlay       map[string][]byte
-	loadedOverlay map[string][]byte
+	Overlay                     map[string][]byte
+	loadedOverlay               map[string][]byte
 	recoverChecked, recoverUsed bool
+	// Renamed: key of a function declared now -> key it had on the audited tree (ResolveRenames)
+	Renamed map[string]string
 
 	allFuncs []*ssa.Function // module functions incl. anonymous, sorted by position
 }
@@ -220,6 +222,18 @@ func (p *Prog) Func(pkgrel, recv, name string) *ssa.Function {
 	if sp == nil {
 		return nil
 	}
+	// a function renamed since the audited tree is found under its old name
+	want := pkgrel + "." + name
+	if recv != "" {
+		want = "(" + pkgrel + "." + recv + ")." + name
+	}
+	for n, o := range p.Renamed {
+		if o == want || o == "(*"+pkgrel+"."+recv+")."+name {
+			if i := strings.LastIndex(n, "."); i >= 0 {
+				name = n[i+1:]
+			}
+		}
+	}
 	if recv == "" {
 		return sp.Func(name)
 	}
@@ -254,6 +268,15 @@ func FuncName(fn *ssa.Function) string {
 	s := fn.String()
 	s = strings.ReplaceAll(s, ModPath+"/", "")
 	s = strings.ReplaceAll(s, ModPath, "")
+	if len(funcAlias) > 0 {
+		base, rest := s, ""
+		if i := strings.Index(s, "$"); i >= 0 {
+			base, rest = s[:i], s[i:]
+		}
+		if old, ok := funcAlias[base]; ok {
+			return old + rest
+		}
+	}
 	return s
 }
 
